@@ -234,6 +234,7 @@ class Run:
 def run_case(run, plugin, case, origin):
     """Run one case on implementation and model.  Returns (mismatch or None, oracle failures)."""
     run.evaluations += 1
+    run.current = (case, origin, time.time())
     impl = plugin.run_impl(case, run)
     model = plugin.run_model(case, run.driver, run)
     mismatch = None
@@ -251,6 +252,27 @@ def run_case(run, plugin, case, origin):
         run.samples.append({'case': case, 'impl': impl})
     return mismatch, [{'case': case, 'impl': impl, 'clause': c, 'detail': d, 'origin': origin}
                       for (c, d) in fails]
+
+
+def start_watchdog(run, limit):
+    """a case (implementation, model or oracle) that does not finish within `limit` seconds is a harness error (exit 2):
+    the case is kept for inspection and the process ends — a check never hangs"""
+    import threading
+
+    def watch():
+        while True:
+            time.sleep(5)
+            cur = getattr(run, 'current', None)
+            if cur and time.time() - cur[2] > limit and getattr(run, 'current', None) is cur:
+                try:
+                    path = write_replay(run.prop, run.seed, 'stuck', {
+                        'property': run.prop, 'seed': run.seed, 'tier': run.tier, 'kind': 'stuck-case', 'case': cur[0],
+                        'origin': cur[1], 'detail': f'no result within {limit} s'})
+                    print(f'HARNESS-ERROR {run.prop}: case {cur[1]} did not finish within {limit} s; kept as {path}',
+                          file=sys.stderr, flush=True)
+                finally:
+                    os._exit(2)
+    threading.Thread(target=watch, daemon=True).start()
 
 
 def first_diff(a, b, path='$'):
@@ -319,6 +341,7 @@ def main(argv=None):
         traceback.print_exc()
         return 2
     run = Run(prop, args.tier, seed)
+    start_watchdog(run, getattr(plugin, 'CASE_LIMIT', 600))
     try:
         if args.replay:
             return replay(run, plugin, args.replay)
